@@ -823,6 +823,55 @@ fn c12_targeted<F: Fam>(ctx: &Ctx, sw: &Sweep) -> u64 {
             }
         }
     }
+    // joint validity: two text fields of one packet that are ill-formed each but well-formed when concatenated
+    // (a multi-byte character split between them), for every ordered pair of text fields of the full packets
+    let mut pair_sites = 0u64;
+    let mut seen_pairs = std::collections::HashSet::new();
+    let splits: Vec<(Vec<u8>, Vec<u8>)> = {
+        let mut v = Vec::new();
+        for ch in ["é", "€", "😀"] {
+            let b = ch.as_bytes();
+            for k in 1..b.len() {
+                v.push((b[..k].to_vec(), b[k..].to_vec()));
+                let mut l = vec![b'a'];
+                l.extend_from_slice(&b[..k]);
+                let mut r = b[k..].to_vec();
+                r.push(b'b');
+                v.push((l, r));
+            }
+        }
+        v
+    };
+    for a in mqtt_ref::genfield::bases(F::FAMILY) {
+        let f = match enc::encode(F::FAMILY, &a, Spell::default()) {
+            Some(f) => f,
+            None => continue,
+        };
+        let strs: Vec<(mutate::Path, Tag)> = mutate::sites(&f.body).into_iter().filter(|(_, t)| matches!(t, Tag::Str(_))).collect();
+        for i in 0..strs.len() {
+            for j in 0..strs.len() {
+                if i == j {
+                    continue;
+                }
+                // every adjacent-in-wire-order pair, and one representative per (type, kind, kind) otherwise
+                let adjacent = j == i + 1;
+                if !adjacent && !seen_pairs.insert((a.ptype(), format!("{:?}{:?}", strs[i].1, strs[j].1))) {
+                    continue;
+                }
+                pair_sites += 1;
+                for (l, r) in &splits {
+                    let n1 = Node::tag(strs[i].1, Node::Len16(Box::new(Node::raw(l))));
+                    let n2 = Node::tag(strs[j].1, Node::Len16(Box::new(Node::raw(r))));
+                    let body = mutate::replace(&mutate::replace(&f.body, &strs[i].0, n1), &strs[j].0, n2);
+                    let g = mqtt_ref::enc::Frame { control: f.control, rl_pad: 0, rl_raw: None, body };
+                    if let Some(b) = g.bytes() {
+                        frames.push(b);
+                    }
+                }
+            }
+        }
+    }
+    ctx.count(&format!("{}_targeted_text_field_pairs", F::NAME), pair_sites);
     ctx.count(&format!("{}_targeted_text_fields", F::NAME), fields);
     ctx.count(&format!("{}_targeted_texts", F::NAME), texts.len() as u64);
     ctx.count(&format!("{}_targeted_frames", F::NAME), frames.len() as u64);
@@ -844,7 +893,7 @@ fn c12_targeted<F: Fam>(ctx: &Ctx, sw: &Sweep) -> u64 {
 }
 
 pub fn c12(ctx: &Ctx) {
-    ctx.set_rule("the invariant walker (every text field valid UTF-8 byte-wise, TopicName/TopicFilter pass the library's own predicates and the reference predicates, shared accessors equal the textual split and do not panic, Pid != 0, VarByteInt < 2^28, UTF-8-flagged payloads valid) on every packet any front-end returns over the byte universes of C03, plus a targeted universe: for each text-bearing field of each packet type, all byte strings <= 2 (thorough 3) over a 16-byte alphabet of ASCII / wildcard / UTF-8 lead, continuation, surrogate and invalid bytes, and longer strings (4..129 bytes) with one bad unit at every position; packet identifiers 0/1/FFFF; subscription identifiers around 2^28 in 4- and 5-byte spellings; UTF-8-flagged payloads. Non-trivial = accepted inputs");
+    ctx.set_rule("the invariant walker (every text field valid UTF-8 byte-wise, TopicName/TopicFilter pass the library's own predicates and the reference predicates, shared accessors equal the textual split and do not panic, Pid != 0, VarByteInt < 2^28, UTF-8-flagged payloads valid) on every packet any front-end returns over the byte universes of C03, plus a targeted universe: for each text-bearing field of each packet type, all byte strings <= 2 (thorough 3) over a 16-byte alphabet of ASCII / wildcard / UTF-8 lead, continuation, surrogate and invalid bytes, and longer strings (4..129 bytes) with one bad unit at every position; for every pair of text fields of a full packet of every type, a multi-byte character split between the two fields at every byte position (each field ill-formed, the concatenation well-formed); packet identifiers 0/1/FFFF; subscription identifiers around 2^28 in 4- and 5-byte spellings; UTF-8-flagged payloads. Non-trivial = accepted inputs");
     fn fam<F: Fam>(ctx: &Ctx) {
         let sw = Sweep { ctx, nontrivial: AtomicU64::new(0), accepted: AtomicU64::new(0) };
         let n = c12_targeted::<F>(ctx, &sw);
